@@ -71,6 +71,9 @@ func runC15(c *Ctx) {
 	ruleTokenSplitting(c, "termination", "ParseCSeq")
 	// a pin is only honoured if the response that establishes it is attributed to its backend: one spelling of a backend's address (shared with C19/C04)
 	c19Addresses(c, "max-lifetime")
+	// a pin is worth its lifetime only if it names the backend that answered: the source address the backend index is
+	// consulted with is the canonical text of the packet's source (shared with C07/C04)
+	c07TrueSource(c)
 }
 
 func c15Polarity(c *Ctx) {
